@@ -1099,6 +1099,7 @@ class BaseScreen(metaclass=BaseMeta):
             if like_name not in self._palette:
                 raise ScreenError(f"palette entry '{like_name}' doesn't exist")
             self._palette[name] = self._palette[like_name]
+            signals.emit_signal(self, UPDATE_PALETTE_ENTRY, name, *self._palette[like_name])
 
     def register_palette_entry(
         self,
